@@ -40,16 +40,17 @@ def time_decorate(rng, xml, ns=None, pretty=False):
     q = (lambda t: f"{{{ns}}}{t}") if ns else (lambda t: t)
     for el in list(root.iter(q("IntegerParameterType"))):
         enc = el.find(q("IntegerDataEncoding"))
-        if enc is None or len(enc) or rng.random() > 0.25:
+        if enc is None or rng.random() > (0.25 if len(enc) == 0 else 0.5):
             continue
+        own_cal = len(enc) > 0      # the data encoding carries calibrators of its own (any polynomial, a spline, contexts)
         tag = rng.choice(["AbsoluteTimeParameterType", "RelativeTimeParameterType"])
         new = ET.Element(q(tag)); new.set("name", el.get("name"))
         e = ET.SubElement(new, q("Encoding"))
         if rng.random() < 0.7:
             e.set("units", rng.choice(["seconds", "ms"]))
-        if rng.random() < 0.6:
+        if rng.random() < (0.2 if own_cal else 0.6):
             e.set("scale", rng.choice(["0.5", "2.0", "0.125"]))
-        if rng.random() < 0.6:
+        if rng.random() < (0.2 if own_cal else 0.6):
             e.set("offset", rng.choice(["0.25", "100.0", "-8.0"]))
         e.append(enc)
         if rng.random() < 0.5:
